@@ -711,17 +711,12 @@ func (w *blobWorld) opString(op blobOp) string {
 // ---- causes (middle part of the signature) ---------------------------------------
 
 func (w *blobWorld) digestCause(d *blobDigest) string {
-	if w.crashKind != "" {
-		switch {
-		case d.overlapped:
-			return "crash-concurrent-writers"
-		case d.chunkGap:
-			return "crash-partial-chunks"
-		}
-		return w.crashKind
-	}
 	if d.n == 0 {
 		return "empty-blob"
+	}
+	if d.chunkGap {
+		// a chunked session (running, ended, or cut by the crash) has not stored all its chunks
+		return "partial-chunks"
 	}
 	var fk []string
 	for k := range d.faults {
@@ -729,13 +724,14 @@ func (w *blobWorld) digestCause(d *blobDigest) string {
 	}
 	sort.Strings(fk)
 	if d.overlapped {
-		if len(fk) > 0 {
+		if len(fk) > 0 || w.crashKind != "" {
+			// a writer killed by the crash is a failed writer
 			return "concurrent-failed-writer"
 		}
 		return "concurrent-writers"
 	}
-	if d.chunkGap {
-		return "partial-chunks"
+	if w.crashKind != "" {
+		return w.crashKind
 	}
 	switch len(fk) {
 	case 0:
@@ -1001,8 +997,23 @@ func (w *blobWorld) doLink(who string, op blobOp) {
 	d := w.digests[op.dig]
 	name := m.variants[op.variant]
 	s0 := w.stepNo
+	fileState := func() string {
+		st, err := os.Stat(w.c.GetFile(d.d))
+		switch {
+		case err != nil:
+			return "no-file"
+		case d.n == 0:
+			return "empty-blob"
+		case st.Size() == 0:
+			return "zero-length-file"
+		case st.Size() == d.n:
+			return "full-size-file"
+		}
+		return "partial-file"
+	}
+	before := fileState()
 	tk := m.beginMut(d.d.String())
-	m.note("%s Link(%s,d%d) starts", who, name, d.idx)
+	m.note("%s Link(%s,d%d) starts (blob file: %s)", who, name, d.idx, before)
 	err := w.c.Link(name, d.d)
 	m.note("%s Link(%s,d%d) = %v", who, name, d.idx, err)
 	if err != nil {
@@ -1020,16 +1031,10 @@ func (w *blobWorld) doLink(who string, op blobOp) {
 		if d.presentAt >= s0 || w.present(d) {
 			return
 		}
-		cause := "no-file"
-		if st, err := os.Stat(w.c.GetFile(d.d)); err == nil {
-			switch {
-			case d.n == 0:
-				cause = "empty-blob"
-			case st.Size() == 0:
-				cause = "zero-length-file"
-			default:
-				cause = "partial-file"
-			}
+		// the state of the blob file when the call started names the cause
+		cause := before
+		if cause == "full-size-file" {
+			cause = fileState()
 		}
 		w.violate("link:"+cause+":link-ok-blob-absent",
 			"Link(%s, %s) returned nil although Get never reported the blob (size %d) present during the call (now: %s)\nhistory of the digest: %s\nhistory of the name: %s\ncase: %s",
@@ -1091,7 +1096,10 @@ func (w *blobWorld) doResolve(who string, m *nameModel, variant int) string {
 		what := "resolve-garbage"
 		switch {
 		case m.past[got.String()]:
-			what = "resolve-stale"
+			what = "resolve-stale-after-relink"
+			if len(seen) == 1 && seen[""] {
+				what = "resolve-stale-after-unlink"
+			}
 		case got == DigestFromBytes(""):
 			what = "resolve-empty-manifest"
 		}
@@ -1252,11 +1260,23 @@ func (w *blobWorld) recoverTask() {
 
 // ---- one execution --------------------------------------------------------------------
 
-func blobCase(t *testing.T, tape *verifsim.Tape, tier string, keepLog bool, crashAt int) (verifsim.Result, int) {
+// blobCase executes the case drawn from tape once. point < 0: reference run
+// (returns the number of enumeration points). point >= 0: the process dies at
+// crash point point*stride+offset, where stride (1, 3 or 9; swarm: cases with
+// few points leave time for more cases) and offset are drawn with the case.
+func blobCase(t *testing.T, tape *verifsim.Tape, tier string, keepLog bool, point int) (verifsim.Result, int) {
 	npoints := 0
 	res := verifsim.Run(t, tape, keepLog, func(sim *verifsim.Sim, res *verifsim.Result) {
 		torn := verifsim.Draw("tornsel", 1<<20)
-		if crashAt >= 0 {
+		strides := [...]int{1, 1, 3, 9}
+		if tier == "thorough" {
+			strides = [...]int{1, 1, 1, 3}
+		}
+		stride := strides[verifsim.Draw("stride", len(strides))]
+		offset := verifsim.Draw("stride-off", stride)
+		crashAt := -1
+		if point >= 0 {
+			crashAt = point*stride + offset
 			torn += crashAt * 7919
 		}
 		w := newBlobWorld(t, sim, tier, crashAt, torn)
@@ -1275,7 +1295,10 @@ func blobCase(t *testing.T, tape *verifsim.Tape, tier string, keepLog bool, cras
 		stop := sim.RunUntil(func() bool { return w.done == len(w.plans) }, 10*time.Minute, 20000)
 		switch stop {
 		case verifsim.CondTrue:
-			npoints = w.ctl.Points
+			res.Info["crash_points_in_cases"] += w.ctl.Points
+			if w.ctl.Points > offset {
+				npoints = (w.ctl.Points - offset + stride - 1) / stride
+			}
 			sim.Go("audit", func() {
 				w.audit("end of the workload")
 				w.finished = true
@@ -1335,7 +1358,7 @@ var blobAssumed = func() map[string]bool {
 }()
 
 func runBlob(t *testing.T, tape *verifsim.Tape, prop, tier string, keepLog bool) verifsim.Result {
-	maxPoints := 120
+	maxPoints := 48
 	if tier == "thorough" {
 		maxPoints = 400
 	}
